@@ -62,9 +62,18 @@ SETS = ['TextPool', 'MathTextPool', 'ComPool', 'CmdNames', 'EnvNames', 'ListName
 INV_ALL = ['C01_RoundTrip', 'C01_Slices', 'C02_Structure', 'C03_Search', 'C13_Positions', 'OutcomeIsDiagnostic', 'StepBound']
 
 
+TRIM = {'TextPool': 6, 'MathTextPool': 3, 'Leaves': 2, 'VerbBodies': 2, 'MathKinds': 2, 'ComPool': 1}
+
+
 def mc_docgen(d, name, pools, invariants, dump='GDump'):
     p = dict(BASE)
     p.update(pools)
+    if p['Budget'] >= 4 and 'TextPool' not in pools and 'MaxDepth' not in pools:
+        # the thorough tier's "one node more" over the standard pools: the pools are cut down so that the run stays in the
+        # millions of states (budget 4 over the full pools is tens of millions of states and half an hour per scope)
+        for k, n in TRIM.items():
+            if k not in pools:
+                p[k] = p[k][:n]
     defs, consts = [], []
     for k in SETS:
         defs.append('MC%s == {%s}' % (k, ', '.join(S(w) for w in p[k])))
